@@ -123,6 +123,35 @@ def final_coverage_zero(r, modules):
     return out
 
 
+def run_level_trace(ctx, prop, runs, event_budget):
+    """Pass whole runs through the shared root trace specification (lib/runtrace.py, spec/MockeryTrace.tla).
+    Clauses owned by `prop` are verdicts, the others notes.  Runs are taken in seed order until event_budget hook
+    events are reached (TLC needs ~10 s per 30k events)."""
+    import runtrace
+    runs = [r for r in runs if r is not None and r.trace]
+    ctx.rng.shuffle(runs)
+    chosen, n = [], 0
+    for r in runs:
+        if n + len(r.trace) > event_budget and chosen:
+            continue
+        chosen.append(r)
+        n += len(r.trace)
+    if not chosen:
+        return
+    rej = runtrace.validate_runs(ctx, chosen)
+    own, other = runtrace.mine(rej, prop)
+    for x in own:
+        ctx.violation({"kind": "run-trace-rejected", "why": x["why"][0]},
+                      {"why": x["why"], "at": x["at"], "event": x["event"], "events": x["events"][:400]})
+    for x in other:
+        ctx.note(f"run-trace clause of {x['props']} rejected a run: {x['why']}")
+    for d in rej.drift:
+        ctx.note("drift: " + ", ".join(d["why"]))
+    ctx.cov["traces_validated_against_impl"] += rej.validated
+    ctx.cov["run_level_traces_validated"] = rej.validated
+    ctx.cov["run_level_trace_events"] = n
+
+
 def par_map(fn, items, workers=12):
     with cf.ThreadPoolExecutor(max_workers=workers) as ex:
         return list(ex.map(fn, items))
@@ -983,8 +1012,8 @@ def run(ctx):
     tick(ctx, "judge", t0)
     # ---- 3. code -> spec: hook traces against the contract
     t0 = time.time()
-    sel_events = thin(ctx, sel_events, 30000 if thorough else 1200)
-    rec_events = thin(ctx, rec_events, 30000 if thorough else 1500)
+    sel_events = thin(ctx, sel_events, 30000 if thorough else 900)
+    rec_events = thin(ctx, rec_events, 30000 if thorough else 1200)
     if sel_events:
         def flip_gen(evs):
             for e in evs:
@@ -1053,6 +1082,10 @@ def run(ctx):
                           {"rejected_at": rj["at"], "events": rj["events"], "W": rec_cases[ci]["W"], "paths": node_paths(rec_cases[ci]),
                            "allowed_sources": [e["allowed"] for e in rec_cases[ci]["expect"]], "contract": "spec/RecursiveTrace.tla"})
     tick(ctx, "trace_validation", t0)
+    t0 = time.time()
+    whole = [r[3] for k, r in results if k == "sel"] + [x for k, r in results if k == "rec" for x in (r[4], r[5])]
+    run_level_trace(ctx, "C07", whole, 600000 if thorough else 30000)
+    tick(ctx, "run_level_trace", t0)
     ctx.cov["distinct_nontrivial"] = len(sel_cases) + len(rec_cases)
     ctx.cov["recursive_worlds_exported"] = len(rec_cases)
     ctx.cov["recursive_export_rule"] = "every world is model checked; those with WHash % ExportMod = 0 (cfg) are exported for replay"
